@@ -337,6 +337,7 @@ func checkImports(t *FileTruth, src string) []ImportProblem {
 		}
 		if other, dup := seen[name]; dup && other != s.path {
 			add("C05", "duplicate-name", fmt.Sprintf("paths %q and %q share the import name %s", other, s.path, name))
+			add("C03", "ambiguous-qualifier", fmt.Sprintf("qualifier %s is bound to both %q and %q", name, other, s.path))
 		}
 		seen[name] = s.path
 	}
